@@ -21,13 +21,18 @@ def limit_cases(rng, tier):
                     ('dimension-count', [126, 127, 128, 200]), ('points', [254, 255, 256] if tier == 'quick' else [254, 255, 256, 300]),
                     ('channels', [254, 255, 256]), ('last-frame', [65534, 65535, 65536]), ('groups', [126, 127, 128]),
                     ('string-width', [254, 255, 256]), ('parameter-blocks', [254, 255, 256] if tier != 'quick' else [255]),
-                    ('frames', [32766, 32767, 32768] if tier != 'quick' else [])):
+                    ('frames', [32766, 32767, 32768] if tier != 'quick' else []), ('record-bytes', [65032, 65287, 65797])):
         for v in vals:
             if L == 'description': lines = P(b'D', b'd' * v, 'P.set I 0 1 1')
             elif L == 'group-and-param-name': lines = P(nm(v, b'N'), b'', 'P.set I 0 1 1', nm(v, b'G'))
             elif L == 'dimension-entries': lines = P(b'MANY', b'', 'P.set I 0 %d %s' % (v, ' '.join(str(i % 100) for i in range(v))))
             elif L in ('int16', 'int16-neg'): lines = P(b'EXT', b'', 'P.set I 0 3 %d 0 %d' % (v, -v if abs(v) < 32768 else 1))
             elif L == 'dimension-count': lines = P(b'DIMS', b'', 'P.set I %d %s 1 7' % (v, ' '.join(['1'] * v)))
+            elif L == 'record-bytes':
+                if v == 65032: lines = P(b'BIGSTR', b'', 'P.set S 0 255 %s' % ' '.join(hx(bytes([65 + (i % 26)]) * 255) for i in range(255)))
+                else:
+                    k = 128 if v == 65287 else 129
+                    lines = P(b'BIGINT', b'', 'P.set I 2 255 %d %d %s' % (k, 255 * k, ' '.join(str((i * 7) % 32768) for i in range(255 * k))))
             elif L == 'string-width': lines = P(b'WIDE', b'', 'P.set S 0 2 %s %s' % (hx(b'w' * v), hx(b'x')))
             elif L == 'groups': 
                 lines = []
@@ -60,7 +65,7 @@ def limit_cases(rng, tier):
 
 LIMITS = {'description': 255, 'group-and-param-name': 127, 'dimension-entries': 255, 'int16': 32767, 'int16-neg': -32768, 'dimension-count': 127,
           'points': 255, 'channels': 255, 'groups': 127, 'string-width': 255, 'parameter-blocks': 255, 'frames': 32767,
-          'pair:description+name': 255, 'pair:dimension+strings': 255}
+          'pair:description+name': 255, 'pair:dimension+strings': 255, 'record-bytes': 65535}
 
 def run(rep, work, rng, tier):
     common.proof_part(rep, 'C17')
